@@ -35,7 +35,10 @@ for d in sorted(glob.glob(os.path.join(V, 'seeded', '*'))):
     how = how.replace('|', '\\|')
     if len(how) > 220:
         how = how[:220] + '…'
-    out.append(f"| {j['seed']} | {j.get('change','').replace('|','/')} | {'yes' if j.get('detected') else 'NO'} | {'yes' if j.get('with_failing_input') else 'no'} | {how} |")
+    caught = 'yes' if j.get('detected') else ('no (the property as stated still holds: see note)' if j.get('property_still_holds') else 'NO')
+    if j.get('property_still_holds'):
+        how = j.get('judgement', '')[:300]
+    out.append(f"| {j['seed']} | {j.get('change','').replace('|','/')} | {caught} | {'yes' if j.get('with_failing_input') else 'no'} | {how} |")
 out.append('')
 out.append('### Repairs and recorded findings (KNOWN_FINDINGS.txt)\n')
 for l in open(os.path.join(V, 'KNOWN_FINDINGS.txt')):
